@@ -146,9 +146,13 @@ def cli_case(rng):
                                      ",".join("%s:%s" % x for x in per_node)) if m else "unparsable"
             lines.append(Line("corr", "gap_stats", [enc], o))
             lines.append(Line("pred", "P.C16.stats", [enc, o]))
+            # the whole command against its model (reader + accumulator + report), from the text of the file
+            lines.append(Line("corr", "analysis_cli", ["GapDegree", proto.enc_s(text)], o))
         rc, out, err = cli.run_cli(["treeanalysis", src, "PosTags"])
         m = re.search(r"(\d+) different tags", out)
         lines.append(Line("corr", "pos_tags", [enc], m.group(1) if (rc == 0 and m) else "failed rc=%d" % rc))
+        if k > 0:
+            lines.append(Line("corr", "analysis_cli", ["PosTags", proto.enc_s(text)], m.group(1) if (rc == 0 and m) else "failed rc=%d" % rc))
         if rc == 0 and m:
             lines.append(Line("pred", "P.C16.tags", [enc, "- " + m.group(1)]))
         # the same task through the API: one tag per token
@@ -160,6 +164,7 @@ def cli_case(rng):
         m = re.search(r"(\d+) sentences", out)
         l = Line("pred", "P.C16.tree", [proto.enc_tree(ts[0]) if ts else "L 1 e n n n n n n n n n", "0"], note="SentenceCount")
         got = m.group(1) if (rc == 0 and m) else "failed"
+        lines.append(Line("corr", "analysis_cli", ["SentenceCount", proto.enc_s(text)], got))
         if got != str(k):
             l.expect = "sentence-count-%d-expected-got-%s" % (k, got)
             lines.append(l)
